@@ -112,6 +112,7 @@ class BufferedFd : public ByteStream {
     ByteStream  *wp_receiver_ = nullptr;
 
     size_t  receive_threshold_ = 0;
+    bool    is_read_eof_ = false;   //! read-zero has been reported
     int     cb_level_ = 0;
 };
 
